@@ -1,3 +1,4 @@
+import keyword
 import re
 import string
 from abc import ABC, abstractmethod
@@ -20,4 +21,7 @@ class BuiltinNameSanitizer(NameSanitizer):
         first_letter = name[0] if name[0] in string.ascii_letters else "_"
         rest = self._BAD_CHARS.sub("", name[1:].translate(self._TRANSLATE_MAP))
         # ``\w`` matches characters that can not be a part of identifier (e.g. "²"), they must be dropped too
-        return first_letter + "".join(char for char in rest if ("_" + char).isidentifier())
+        result = first_letter + "".join(char for char in rest if ("_" + char).isidentifier())
+        if keyword.iskeyword(result):  # e.g. function named ``pass``
+            return result + "_"
+        return result
